@@ -65,7 +65,7 @@ def gen_ops(rng, n, knobs, profile="c05"):
     w = {"memoize": 5, "get": 2, "gets": 1, "read": 3, "hold": 1.2, "read_held": 1.5, "is": 1.5, "isall": 0.7, "forget_call": 1.2, "forget_fn": 0.7,
          "forget_all": 0.25, "list_fns": 0.5, "list_m": 1, "wmeta": 0.8, "rmeta": 0.8, "restart": 0.7}
     if profile == "c06":
-        w.update({"wmeta": 0, "rmeta": 0, "list_fns": 0, "list_m": 0, "memoize": 5, "read": 4, "is": 2, "get": 2, "restart": 0.5})
+        w.update({"wmeta": 0, "rmeta": 0, "list_fns": 0, "list_m": 0.6, "memoize": 5, "read": 4, "is": 2, "get": 2, "restart": 0.5})
     if profile == "c07":
         w.update({"memoize": 7, "wmeta": 0.3, "rmeta": 0.3})
     # swarm: knock out / boost some op kinds per run
@@ -82,6 +82,8 @@ def gen_ops(rng, n, knobs, profile="c05"):
     types = ["str"] * 6 + ["bytes", "list", "dict", "df", "arr", "none", "int"]
     if knobs.get("hold"):
         types += ["arr", "df", "arr"]      # weak-referenceable values matter when the caller keeps them alive
+    if profile == "c07":
+        types += ["part", "odpart", "odpart"]   # partitions (in memory / staged on disk) whose values share bytes with plain results
     p_over = {"c05": 0.12, "c06": 0.05, "c07": 0.45, "c19": 0.15}.get(profile, 0.1)
     ops = []
     u = 0
@@ -94,8 +96,10 @@ def gen_ops(rng, n, knobs, profile="c05"):
             cls = rng.choices(["tiny", "third", "half", "exact", "over"], [4, 3, 2, 1, 1.5])[0]
             t = types[rng.randrange(len(types))]
             n_ = sc[cls]
-            if t in ("df", "arr", "list", "dict", "none", "int"):
+            if t in ("df", "arr", "list", "dict", "none", "int", "part", "odpart"):
                 cls = "typed"
+                if t in ("part", "odpart"):
+                    n_ = sc[rng.choice(["tiny", "third"])]
             spec = {"t": t, "n": n_, "u": u if rng.random() > 0.12 else rng.randrange(1, 4), "cls": cls}
             ko = OVERRIDE_KEYS[rng.randrange(len(OVERRIDE_KEYS))] if rng.random() < p_over else None
             ops.append(["memoize", fn, x, spec, ko])
@@ -207,6 +211,9 @@ class DictStore:
 
 
 def clone(v):
+    from twosigma.memento.partition import InMemoryPartition, Partition
+    if isinstance(v, Partition):       # (an on-disk partition refers to a staging directory: remember its content instead)
+        return InMemoryPartition({k: clone(v.get(k)) for k in sorted(v.list_keys())})
     return pickle.loads(pickle.dumps(v, protocol=5))
 
 
